@@ -269,6 +269,10 @@ def run(rep: Report, tier: str) -> None:
     rep.rule("R21.8", "with VTL_SKIP_LOAD_VALIDATION set, _validate_loaded_table still normalises the Time_Period columns on every path (the switch skips checks, not canonicalisation)")
     from sa.checks.c19 import normalisation_with_skip_flag as _nws
     _nws(P, rep, "R21.8")
+    # ---- R21.9: the loader's normalising UPDATE reaches every non-canonical spelling ----
+    rep.rule("R21.9", "_normalize_time_period_columns: one UPDATE with vtl_period_normalize per Time_Period column whose row filter selects every accepted non-canonical spelling")
+    from sa.checks.c19 import period_limits as _pl9
+    normalise_update_covers_spellings(P, rep, "R21.9", _pl9(P))
     rep.assumptions = ["canonical internal form = TimePeriodHandler.__str__ (lowered from the source)", "SQL string functions SUBSTR/LENGTH/LPAD/"
                        "UPPER/CAST/TRY_CAST/|| have standard semantics; period_to_date(year,'D',n) = 1 January + (n-1) days"]
 
@@ -355,3 +359,69 @@ def spelling_grid(rep: Report, rule: str, macros: Dict[str, Any], limits: Dict[s
                             f"validate_dataset() reports an invalid Time_Period (and a non-nullable component is then rejected for the wrong reason)"))
     rep.instance(rule, "spelling-grid", nontrivial=True, sample={"spellings evaluated": nsp})
     rep.floor(f"{rule} spellings", nsp, 150)
+
+
+def normalise_update_covers_spellings(P: Program, rep: Report, rule: str, limits: Dict[str, int]) -> None:
+    """_normalize_time_period_columns evaluated against a model connection: every UPDATE it issues applies vtl_period_normalize, and its row
+    filter (if any) selects EVERY accepted spelling that is not yet the canonical text (all spellings of the grid are tried: compact,
+    hyphenated, any zero padding, either letter case).  A filter that takes `2021-M2` for canonical leaves it as written: it then sorts
+    after `2021-M10` and does not join the calendar grid.  Shared between C08 and C21."""
+    from sa import sqlconc as _sc, sqlexpr as _se
+    from sa.e6 import ClassVal as _CV, ExternalObj as _EO, Interp as _I, Raised as _R, Unmodelled as _U
+    f = P.func("vtlengine.duckdb_transpiler.io._io._normalize_time_period_columns")
+
+    class _Conn:
+        def __init__(self) -> None:
+            self.q: List[str] = []
+
+        def execute(self, q: str, *a: Any) -> Any:
+            self.q.append(q)
+            return _EO({"fetchone": lambda: (False,), "fetchall": lambda: [(False,)], "description": None})
+    conn = _Conn()
+    comps = {"Id_1": _EO({"name": "Id_1", "data_type": _CV("vtlengine.DataTypes.Integer")}), "T": _EO({"name": "T", "data_type": _CV("vtlengine.DataTypes.TimePeriod")})}
+    try:
+        _I(P, max_steps=20000).call(f, {"conn": conn, "table_name": "DS_1", "components": comps})
+    except (_R, _U) as e:
+        raise AnalysisError(f"{rule}: _normalize_time_period_columns outside the evaluator's language: {e}")
+    ups = [q for q in conn.q if q.strip().upper().startswith("UPDATE") and '"T"' in q]
+    rep.instance(rule, "normalise-update", nontrivial=True, sample={"statements": [" ".join(q.split())[:160] for q in conn.q][:3]})
+    if len(ups) != 1 or "vtl_period_normalize" not in ups[0].lower():
+        rep.add(Finding(rule, f"{rule}/normalise-update/unconditional", f.module.rel, f.node.lineno, f.qualname,
+                        f"for a Time_Period column the loader issues {[' '.join(q.split())[:90] for q in conn.q]}: exactly one UPDATE applying vtl_period_normalize to the column is expected "
+                        f"whatever a probe of some stored value answers - a column mixing spellings would otherwise keep the spelling of the rows that were not looked at"))
+        return
+    up = ups[0]
+    where = up[up.upper().index(" WHERE ") + 7:] if " WHERE " in up.upper() else None
+    if where is None:
+        return
+    try:
+        pred = _se.parse(where)
+    except _se.ParseError as e:
+        raise AnalysisError(f"{rule}: the UPDATE's row filter is outside the SQL evaluator's language: {e} [{where[:100]}]")
+    n = 0
+    shown = 0
+    for ind in ("A", "S", "Q", "M", "W", "D"):
+        width = {"A": 0, "S": 1, "Q": 1, "M": 2, "W": 2, "D": 3}[ind]
+        nums = [1] if ind == "A" else sorted({k for k in (1, 2, 4, 9, 10, 12, 45, 52, 99, 100, 365) if k <= limits[ind]})
+        for k in nums:
+            canon = "2021A" if ind == "A" else f"2021-{ind}{str(k).zfill(width)}"
+            spellings: Set[str] = {"2021", "2021A", "2021-A1", "2021a"} if ind == "A" else set()
+            if ind != "A":
+                for w in range(len(str(k)), 4 if ind == "D" else 3):
+                    for sep in ("", "-"):
+                        for letter in (ind, ind.lower()):
+                            spellings.add(f"2021{sep}{letter}{str(k).zfill(w)}")
+            for sp in sorted(spellings):
+                if sp == canon:
+                    continue
+                n += 1
+                try:
+                    sel = _sc.ev(pred, {"T": sp, '"T"': sp}, {})
+                except (_sc.SqlError, _se.ParseError) as e:
+                    raise AnalysisError(f"{rule}: row filter not evaluable on {sp!r}: {e}")
+                if sel is not True and shown < 4:
+                    shown += 1
+                    rep.add(Finding(rule, f"{rule}/normalise-update/skips/{ind}/{sp}", f.module.rel, f.node.lineno, f.qualname,
+                                    f"the accepted spelling {sp!r} of the period {canon} is not selected by the normalising UPDATE (`WHERE {' '.join(where.split())[:110]}`): it is stored as written, "
+                                    f"so it compares unequal to {canon!r}, sorts as text before/after the wrong periods (flow_to_stock, fill_time_series) and is rendered with the wrong padding"))
+    rep.floor(f"{rule} non-canonical spellings against the row filter", n, 100)
